@@ -61,6 +61,29 @@ func registerIntrinsics(P *Program) {
 		p := m.newBytes(ts, "nondet-bytes "+name)
 		return SliceVal{P: p, Len: n, Cap: n}
 	}
+	I[vrtPkg+"BytesTail"] = func(m *Machine, fn *ssa.Function, args []Value) Value {
+		name := m.mustGoString(args[0], "nondet name")
+		n := m.constInt(args[1].(*Term), "BytesTail n")
+		tail := m.constInt(args[2].(*Term), "BytesTail tail")
+		ts := make([]*Term, n+tail)
+		for i := range ts {
+			if int64(i) < n {
+				ts[i] = m.freshVar(fmt.Sprintf("%s_%d", name, i), 8, "u8").(*Term)
+			} else {
+				ts[i] = m.st.Const(8, 0)
+			}
+		}
+		p := m.newBytes(ts, "input-bytes "+name)
+		o := m.w.W(p.ID)
+		for i := n; i < n+tail; i++ {
+			o.slots[i] = Slot{kind: slotPoison}
+		}
+		return SliceVal{P: p, Len: n, Cap: n + tail}
+	}
+	I[vrtPkg+"Measure"] = func(m *Machine, fn *ssa.Function, args []Value) Value {
+		return m.callValue(args[0], nil)
+	}
+	I[vrtPkg+"NativeOnly"] = func(m *Machine, fn *ssa.Function, args []Value) Value { return nil }
 	I[vrtPkg+"String"] = func(m *Machine, fn *ssa.Function, args []Value) Value {
 		name := m.mustGoString(args[0], "nondet name")
 		n := m.constInt(args[1].(*Term), "String n")
